@@ -1339,7 +1339,8 @@ class MyPyAstVisitor:
                             if (
                                 qualified_import.qualified_name in {module_name, module_qname}
                                 and (
-                                    (qualified_import.alias is None and not_internal)
+                                    # Without an alias the module is imported under its own name
+                                    (qualified_import.alias is None and not is_internal(module_name))
                                     or (qualified_import.alias is not None and not is_internal(qualified_import.alias))
                                 )
                                 and not_internal
